@@ -23,7 +23,7 @@ ROOT_NOW = z3.Const("container_root_wrapper_obtained_by_this_call", Node)
 T_QUERY = [
     "plugin_args(schema, version) normalises the two arguments to (name, version or None)",
     "start.visititems(f) calls f(path, node) once for every user-visible node strictly below start, in pre-order, with nodes wrapped from start (flags inherited): that is the wrappers' contract (C08/C15); here it is the sequence visited_node(start, 0..n-1)",
-    "(name, version) in node.meta is MetadorMeta.__contains__ (its own contract, specs/metaread.py: iff the node-level query yields something)",
+    "(name, version) in node.meta is MetadorMeta.__contains__ (its own contract, specs/metaread.py: iff the node-level query yields something; the node-level query is under contract there too)",
 ]
 
 
